@@ -51,10 +51,11 @@ func (pc *pipeCorr) add(ctx *Ctx, d *Doc, root *html.Node, skipUnlikely bool, re
 				continue
 			}
 			if ev.Kind == "figure" {
+				// the figure the converter visited is the outermost figure around the image
+				// (an inner one is consumed with it)
 				for p := n; p != nil; p = p.Parent {
 					if p.Type == html.ElementNode && p.Data == "figure" {
 						n = p
-						break
 					}
 				}
 			}
